@@ -201,6 +201,7 @@ func runC02(c *Ctx) {
 	}
 	c.compareBatch(cases)
 	c.overlapMergeProbe("C02")
+	c.c02ColAttrs()
 	nst := 40
 	if c.Thorough() {
 		nst = 1500
@@ -256,4 +257,95 @@ func (c *Ctx) c02Streamed(h c11hist) {
 			c.Fail("oracle", "C02_save_twice", desc, "stream-written sheet: a second save of the unmodified workbook decodes differently: "+firstDiff(d1, d2), "")
 		}
 	})
+}
+
+// column attributes of two adjacent columns (every combination of outline level, width, style, visibility, both
+// orders of setting): what the getters report must not change when the workbook is saved, and a second save must
+// decode to the same content; also for a workbook that was opened from a package
+func (c *Ctx) c02ColAttrs() {
+	type ca struct{ Ol, W, St, Hid int }
+	var opts []ca
+	for ol := 0; ol < 3; ol++ {
+		for w := 0; w < 3; w++ {
+			for st := 0; st < 2; st++ {
+				for hid := 0; hid < 2; hid++ {
+					opts = append(opts, ca{ol, w, st, hid})
+				}
+			}
+		}
+	}
+	widths := []float64{0, 20, 30.5}
+	apply := func(f *excelize.File, col string, a ca, styles []int) {
+		if a.Ol > 0 {
+			f.SetColOutlineLevel("Sheet1", col, uint8(a.Ol))
+		}
+		if a.W > 0 {
+			f.SetColWidth("Sheet1", col, col, widths[a.W])
+		}
+		if a.St > 0 {
+			f.SetColStyle("Sheet1", col, styles[a.St])
+		}
+		if a.Hid > 0 {
+			f.SetColVisible("Sheet1", col, false)
+		}
+	}
+	obs := func(f *excelize.File) string {
+		var sb strings.Builder
+		for _, col := range []string{"A", "B", "C", "D", "E"} {
+			w, _ := f.GetColWidth("Sheet1", col)
+			ol, _ := f.GetColOutlineLevel("Sheet1", col)
+			v, _ := f.GetColVisible("Sheet1", col)
+			st, _ := f.GetColStyle("Sheet1", col)
+			fmt.Fprintf(&sb, "%s:w=%v,ol=%d,vis=%v,st=%d ", col, w, ol, v, st)
+		}
+		return sb.String()
+	}
+	for i, a := range opts {
+		for j, b := range opts {
+			if !c.Thorough() && (i*31+j)%3 != 0 {
+				continue
+			}
+			desc := map[string]interface{}{"colB": a, "colC": b, "order": (i + j) % 2}
+			c.guard("C02_no_panic", desc, func() {
+				f := excelize.NewFile()
+				defer f.Close()
+				styles := registerStyles(f)
+				if (i+j)%2 == 0 {
+					apply(f, "B", a, styles)
+					apply(f, "C", b, styles)
+				} else {
+					apply(f, "C", b, styles)
+					apply(f, "B", a, styles)
+				}
+				c.Count("col-attrs", a != b, fmt.Sprint(a, b))
+				o0 := obs(f)
+				buf, err := f.WriteToBuffer()
+				if err != nil {
+					c.Fail("oracle", "C02_save_twice", desc, "save failed: "+err.Error(), "")
+					return
+				}
+				if o1 := obs(f); o1 != o0 {
+					c.Fail("oracle", "C02_getters_pure", desc, fmt.Sprintf("column attributes reported by the getters changed when the workbook was saved: %s  ->  %s", o0, o1), "")
+					return
+				}
+				g, err := excelize.OpenReader(bytes.NewReader(buf.Bytes()))
+				if err != nil {
+					c.Fail("oracle", "C02_save_twice", desc, "reopen failed: "+err.Error(), "")
+					return
+				}
+				defer g.Close()
+				g0 := obs(g)
+				if _, err := g.WriteToBuffer(); err != nil {
+					c.Fail("oracle", "C02_save_twice", desc, "second save failed: "+err.Error(), "")
+					return
+				}
+				if g1 := obs(g); g1 != g0 {
+					c.Fail("oracle", "C02_getters_pure", desc, fmt.Sprintf("opened workbook: column attributes changed when it was saved: %s  ->  %s", g0, g1), "")
+				}
+			})
+			if len(c.R.Failures) >= 3 {
+				return
+			}
+		}
+	}
 }
